@@ -19,3 +19,5 @@ func TestC11Closure(t *testing.T) { RunC11Closure(t) }
 func TestC12(t *testing.T)        { C12.Run(t) }
 func TestC13(t *testing.T)        { C13.Run(t) }
 func TestC13Closure(t *testing.T) { RunC13Closure(t) }
+func TestC15(t *testing.T) { C15.Run(t) }
+func TestC19(t *testing.T) { C19.Run(t) }
